@@ -414,5 +414,39 @@ func c06Merge(r *core.Run) {
 	if m := r.Need("merge", fnMergeFrags); m != nil {
 		reach := reachable(r.P, []*core.Fn{m})
 		r.Check(reach[fn], "merge", fnMergeFrags+" -> fragmentMergeFunction", site(r, m.SSA.Pos()), "Import's callback is fragmentMergeFunction", "mergeFragments does not merge through fragmentMergeFunction")
+		// and every Import in it does so, whatever the kind of the partition
+		n2 := counter{}
+		imports := 0
+		for _, g := range core.AllSSA(m.SSA) {
+			for _, in := range findInstrs(g, false, engineCall("Import")) {
+				imports++
+				args := in.(ssa.CallInstruction).Common().Args
+				cb := args[len(args)-1]
+				merges := false
+				var cbFn *ssa.Function
+				switch x := cb.(type) {
+				case *ssa.MakeClosure:
+					cbFn, _ = x.Fn.(*ssa.Function)
+				case *ssa.Function:
+					cbFn = x
+				}
+				if cbFn != nil {
+					if len(findInstrs(cbFn, true, callTo(fnMergeFunc))) > 0 {
+						merges = true
+					}
+					for _, c := range findInstrs(cbFn, true, func(in ssa.Instruction) bool { _, ok := in.(ssa.CallInstruction); return ok }) {
+						if o := core.CalleeObj(c.(ssa.CallInstruction)); o != nil {
+							if h := r.P.ByObj[o]; h != nil && reachable(r.P, []*core.Fn{h})[fn] {
+								merges = true
+							}
+						}
+					}
+				}
+				r.Check(merges, "merge", n2.next(fnMergeFrags+" Import callback"), site(r, instrPos(in)),
+					"the imported entries go through fragmentMergeFunction (last write wins)",
+					"a fragment is imported with a callback that does not go through fragmentMergeFunction (a plain Put, say): a late or re-delivered fragment carrying older copies overwrites newer local writes — for backup partitions the stale copy is what a read sees after a failover")
+			}
+		}
+		r.Floor("merge(Import sites)", imports, 1)
 	}
 }
